@@ -9,6 +9,11 @@ on the real code (oracle).
 import CLModel.Compare.Merge
 import CLModel.Proofs.C04Splice
 import CLModel.Proofs.C04Ini
+import CLModel.Proofs.C04Bytes
+import CLModel.Proofs.C04Quiet
+import CLModel.Proofs.C04MultiProps
+import CLModel.Proofs.C04Dtd
+import CLModel.Proofs.C02XInc
 namespace C04
 open Merge Gen.Tables
 
@@ -401,5 +406,452 @@ example : iniSection [83] ++ 10 :: l10nText [([107, 32], [32, 118, 32, 92])] tru
 example : (iniGetNext #[91, 97, 93, 61, 98] 0).kind = .section := by decide
 
 end Reparse
+
+
+/-! ## Round 4 -/
+
+/-! ### bytes: decode → splice → encode
+
+`Parser.readFile` decodes the file (UTF-8, `errors="replace"`, universal newlines) into `ctx.contents`; `merge` writes text
+through a strict UTF-8 encoder; only `shutil.copyfile` moves bytes.  `MergeB.mergeBytes` is the text model with these
+steps around it. -/
+section Bytes
+open MergeB C04B
+
+/-- no skips and nothing missing: the staged file is the l10n file BYTE FOR BYTE — whatever the bytes are (CRLF, lone CR,
+    BOM, ill-formed UTF-8, NUL …), for every capability set that stages at all.  No decoding is involved. -/
+theorem clean_bytes_identical (caps : Nat) (l10n ref : List Nat)
+    (hc : hasCap caps CAN_COPY = true ∨ hasCap caps CAN_SKIP = true) (hn : caps ≠ CAN_NONE) :
+    mergeBytes true caps l10n ref [] [] = .bytes l10n := by
+  simp [mergeBytes, clean_is_identical caps (readFile l10n) hc hn]
+
+/-- copy-only formats (`.inc`, unknown types, missing / obsolete files): the l10n BYTES if clean, else the reference BYTES -/
+theorem copy_only_bytes (l10n ref : List Nat) (skips : List Skip) (ms : List (List Nat)) :
+    mergeBytes true CAN_COPY l10n ref skips ms =
+      (if skips.isEmpty && ms.isEmpty then .bytes l10n else .bytes ref) := by
+  simp only [mergeBytes, copy_only]
+  by_cases h : (skips.isEmpty && ms.isEmpty) = true <;> simp [h]
+
+/-- nothing cut, entries appended (mergeable formats): the original BYTES are a prefix of the staged file (copy, then
+    append the encoded block) — the localized part is not re-encoded -/
+theorem append_bytes_prefix (l10n ref : List Nat) (m : List Nat) (ms : List (List Nat)) :
+    mergeBytes true (CAN_SKIP + CAN_MERGE) l10n ref [] (m :: ms) = encodeOut l10n (trailing (m :: ms) []) := by
+  simp [mergeBytes, merge, hasCap, CAN_SKIP, CAN_MERGE, CAN_COPY, CAN_NONE]
+
+/-- … and that block encodes when the reference entries are decoded text (scalar values) -/
+theorem append_bytes_prefix_total (l10n ref : List Nat) (m : List Nat) (ms : List (List Nat))
+    (hs : ∀ t ∈ m :: ms, ∀ c ∈ t, Scalar c) :
+    ∃ e, encodeUtf8 (trailing (m :: ms) []) = some e ∧
+      mergeBytes true (CAN_SKIP + CAN_MERGE) l10n ref [] (m :: ms) = .bytes (l10n ++ e) := by
+  have hsc : ∀ c ∈ trailing (m :: ms) [], Scalar c := by
+    intro c hc
+    simp only [trailing, List.filter_nil, List.map_nil, List.append_nil, List.mem_flatten, List.mem_map] at hc
+    obtain ⟨l, ⟨t, ht, rfl⟩, hcl⟩ := hc
+    have h10 : Scalar 10 := by unfold Scalar; omega
+    have hin : ∀ c ∈ t, Scalar c := by
+      rcases List.mem_cons.mp ht with e | e
+      · subst e; intro c hc; simp at hc; subst hc; exact h10
+      · exact hs t e
+    unfold ensureNewline at hcl
+    split at hcl
+    · exact hin c hcl
+    · rcases List.mem_append.mp hcl with h | h
+      · exact hin c h
+      · simp at h; subst h; exact h10
+  obtain ⟨e, he⟩ := encodeUtf8_total _ hsc
+  exact ⟨e, he, by rw [append_bytes_prefix]; simp [encodeOut, he]⟩
+
+/-- something cut: the staged bytes are `encode(splice(decode(l10n bytes)))` (+ the encoded block for mergeable formats) -/
+theorem skip_bytes_spec (l10n ref : List Nat) (sk : Skip) (skips : List Skip) (ms : List (List Nat))
+    (sorted : List Skip) (hs : sortSkips (sk :: skips) = some sorted) :
+    mergeBytes true (CAN_SKIP + CAN_MERGE) l10n ref (sk :: skips) ms =
+        encodeOut [] (chunks (readFile l10n) sorted none ++ trailing ms sorted) ∧
+      mergeBytes true CAN_SKIP l10n ref (sk :: skips) ms = encodeOut [] (chunks (readFile l10n) sorted none) := by
+  constructor
+  · rw [mergeBytes, merge_text_spec _ sk skips ms sorted hs]
+  · rw [mergeBytes, skip_only_text _ sk skips ms sorted hs]
+
+/-- the decoder only produces scalar values, so the strict encoder never raises on (any part of) decoded text -/
+theorem encode_readFile_total (b : List Nat) : ∃ e, encodeUtf8 (readFile b) = some e :=
+  encodeUtf8_total _ (readFile_scalar b)
+
+/-- skip-only formats, sorted disjoint skips: the staged file is the encoding of a SUBSEQUENCE of the decoded l10n text;
+    it always encodes (no UnicodeEncodeError), no reference text enters -/
+theorem skip_only_bytes (l10n ref : List Nat) (sk : Skip) (skips : List Skip) (ms : List (List Nat))
+    (sorted : List Skip) (hs : sortSkips (sk :: skips) = some sorted) (hd : SortedDisjoint sorted 0) :
+    ∃ t e, t.Sublist (readFile l10n) ∧ encodeUtf8 t = some e ∧
+      mergeBytes true CAN_SKIP l10n ref (sk :: skips) ms = .bytes e := by
+  obtain ⟨t, ht, hsub⟩ := skip_only_no_english (readFile l10n) sk skips ms sorted hs hd
+  obtain ⟨e, he⟩ := encodeUtf8_sublist_total hsub (readFile_scalar l10n)
+  exact ⟨t, e, hsub, he, by simp [mergeBytes, ht, encodeOut, he]⟩
+
+/-- WHEN is a rewrite the identity on bytes?  `encode(decode(b)) = b` exactly for well-formed UTF-8 without CR:
+    `b` is the encoding of a CR-free text (encodable = scalar values only). -/
+theorem encode_readFile_id_iff (b : List Nat) :
+    encodeUtf8 (readFile b) = some b ↔ ∃ t, 13 ∉ t ∧ encodeUtf8 t = some b := by
+  constructor
+  · intro h
+    exact ⟨readFile b, readFile_no13 b, h⟩
+  · rintro ⟨t, h13, he⟩
+    have hd := decode_encode t b he
+    have : readFile b = t := by
+      unfold readFile univNewlines
+      rw [hd, univFrom_id t h13]
+    rw [this, he]
+
+/-- decode ∘ encode is the identity on CR-free encodable text -/
+theorem readFile_encode (t b : List Nat) (h13 : 13 ∉ t) (he : encodeUtf8 t = some b) : readFile b = t := by
+  unfold readFile univNewlines
+  rw [decode_encode t b he, univFrom_id t h13]
+
+/-- NEGATION WITNESSES for the two hypotheses (what a rewrite does outside them): `a⏎` with CRLF comes back with LF;
+    the ill-formed byte FF comes back as U+FFFD (EF BF BD); a lone CR comes back as LF; a truncated sequence (E2 82) at
+    the end of the file is one U+FFFD; BOM and NUL survive. -/
+theorem rewrite_not_identity_witness :
+    encodeUtf8 (readFile [97, 13, 10]) = some [97, 10] ∧
+    encodeUtf8 (readFile [255]) = some [239, 191, 189] ∧
+    encodeUtf8 (readFile [97, 13, 98]) = some [97, 10, 98] ∧
+    encodeUtf8 (readFile [97, 226, 130]) = some [97, 239, 191, 189] ∧
+    encodeUtf8 (readFile [239, 187, 191, 0, 97]) = some [239, 187, 191, 0, 97] := by
+  refine ⟨by decide, by decide, by decide, by decide, by decide⟩
+
+/-- … which is why the copy path matters: the same CRLF file `a⏎b` is staged untouched when clean, and LF-normalised as
+    soon as ONE span (here the `b`) is cut, although the cut does not touch the line end -/
+theorem crlf_rewrite_witness :
+    mergeBytes true CAN_SKIP [97, 13, 10, 98] [] [] [] = .bytes [97, 13, 10, 98] ∧
+    mergeBytes true CAN_SKIP [97, 13, 10, 98] [] [{ span := some (2, 3), junk := true, refAll := [] }] [] = .bytes [97, 10] := by
+  refine ⟨by decide, by decide⟩
+
+end Bytes
+
+/-! ### quiet levels: what is merged does not depend on what is listed -/
+section Quiet
+open MergeB ObsM C04Q
+
+/-- `compare` + `merge` for ANY quiet level: the staged bytes (and the `missing`/`report` counts) are those of the entries
+    selected by the filters' verdicts alone — only `error` verdicts are merged, `warning` ones are counted as `report`,
+    `ignore` ones dropped — whatever the quiet level of the observers. -/
+theorem compareMerge_verdicts_only (q : Nat) (filters : List (Option Filter)) (file : File)
+    (ents : List (Data × List Nat)) (caps : Nat) (l10n ref : List Nat) (skips : List Skip) (out : FileOut × Nat × Nat)
+    (h : compareMerge q filters file ents caps l10n ref skips = .ok out) :
+    out = (mergeBytes true caps l10n ref skips (missSpec filters file ents).1,
+           (missSpec filters file ents).2.1, (missSpec filters file ents).2.2) :=
+  compareMerge_spec h
+
+/-- the merged bytes do not depend on the quiet level -/
+theorem merged_bytes_quiet_independent (q1 q2 : Nat) (filters : List (Option Filter)) (file : File)
+    (ents : List (Data × List Nat)) (caps : Nat) (l10n ref : List Nat) (skips : List Skip) (a b : FileOut × Nat × Nat)
+    (h1 : compareMerge q1 filters file ents caps l10n ref skips = .ok a)
+    (h2 : compareMerge q2 filters file ents caps l10n ref skips = .ok b) : a = b := by
+  rw [compareMerge_spec h1, compareMerge_spec h2]
+
+/-- … and both runs do return (no exception from the observers) for every file without a legacy module -/
+theorem compareMerge_returns (q : Nat) (filters : List (Option Filter)) (file : File)
+    (ents : List (Data × List Nat)) (caps : Nat) (l10n ref : List Nat) (skips : List Skip) (hm : file.module = none) :
+    ∃ out, compareMerge q filters file ents caps l10n ref skips = .ok out :=
+  compareMerge_total q filters file ents caps l10n ref skips (by intro m hmm; rw [hm] at hmm; cases hmm)
+
+/-- with `Observer(filter=None)` every missing entity is merged, at every quiet level -/
+theorem no_filter_merges_all (file : File) : ∀ (ents : List (Data × List Nat)),
+    missSpec [none] file ents = (ents.map (·.2), ents.length, 0)
+  | [] => rfl
+  | (k, t) :: rest => by
+    have ih := no_filter_merges_all file rest
+    have hv : verdict [none] file k = .error := rfl
+    simp only [missSpec, hv, ih, List.map_cons, List.length_cons]
+
+-- non-vacuity / the regression itself: at EVERY quiet level `a=1⏎` with `b=2⏎` missing is staged as `a=1⏎⏎b=2⏎`
+example (q : Nat) :
+    compareMerge q [none] { file := [97], module := none, locale := some [120] } [(.str [98], [98, 61, 50, 10])]
+      cap_properties [97, 61, 49, 10] [] [] = .ok (.bytes [97, 61, 49, 10, 10, 98, 61, 50, 10], 1, 0) := by
+  obtain ⟨out, h⟩ := compareMerge_returns q [none] { file := [97], module := none, locale := some [120] }
+    [(.str [98], [98, 61, 50, 10])] cap_properties [97, 61, 49, 10] [] [] rfl
+  rw [h, compareMerge_verdicts_only _ _ _ _ _ _ _ _ _ h, no_filter_merges_all]
+  exact congrArg Except.ok (by decide)
+
+end Quiet
+
+/-! ### several cuts, in any order -/
+section Multi
+open C04M
+
+/-- GENERAL (all formats): the l10n text is any sequence of kept and (non-empty) cut pieces; `skips` is ANY permutation
+    of the cut spans.  `skips.sort` restores file order and the chunk loop writes exactly the kept pieces — followed, for
+    mergeable formats, by the block of missing entries and the reference entries of the non-junk cuts in FILE order. -/
+theorem merge_cuts_any_order (pcs : List Pc) (perm : List Skip) (ms : List (List Nat))
+    (hc : CutsNonempty pcs) (hp : perm.Perm (pcSkips 0 pcs)) (hne : perm ≠ []) :
+    merge true (CAN_SKIP + CAN_MERGE) (pcText pcs) perm ms = .written (pcKept pcs ++ trailing ms (pcSkips 0 pcs)) ∧
+    merge true CAN_SKIP (pcText pcs) perm ms = .written (pcKept pcs) := by
+  have hs := sortSkips_pieces pcs perm hc hp
+  obtain ⟨sk, rest, rfl⟩ : ∃ sk rest, perm = sk :: rest := by
+    cases perm with
+    | nil => exact absurd rfl hne
+    | cons a b => exact ⟨a, b, rfl⟩
+  exact ⟨by rw [merge_text_spec _ sk rest ms _ hs, chunks_pieces], by rw [skip_only_text _ sk rest ms _ hs, chunks_pieces]⟩
+
+/-- the order in which `compare` lists the skips is irrelevant -/
+theorem merge_skip_order_irrelevant (pcs : List Pc) (p1 p2 : List Skip) (ms : List (List Nat)) (caps : Nat)
+    (hc : CutsNonempty pcs) (h1 : p1.Perm (pcSkips 0 pcs)) (h2 : p2.Perm (pcSkips 0 pcs)) :
+    merge true caps (pcText pcs) p1 ms = merge true caps (pcText pcs) p2 ms := by
+  have s1 := sortSkips_pieces pcs p1 hc h1
+  have s2 := sortSkips_pieces pcs p2 hc h2
+  have he : p1.isEmpty = p2.isEmpty := by
+    have := (h1.trans h2.symm).length_eq
+    cases p1 <;> cases p2 <;> simp_all
+  unfold merge
+  simp only [s1, s2, he]
+
+/-- (several cuts, `.properties`) The localization is a list of lines: safe records, safe records with an error-level check
+    result (to be replaced by their reference record), garbage lines — a garbage line is followed by a record or the end of
+    the file.  (1) The walk reports one entity per record and ONE junk entry per garbage line spanning exactly the line
+    (garbage locality for any number of lines); every skip is the span of such an entry.  (2) Whatever the order of the
+    skips, the staged text is the kept records (a blank line where a record was cut), a newline, the missing entries and the
+    reference records of the cut ones in file order; it parses to exactly these records, no unparsed content. -/
+theorem multi_cut_reparses_properties_partial (ls : List Line) (ms : List P.PRec) (perm : List Skip)
+    (hok : LinesOK ls) (hms : ∀ r ∈ ms, P.SafeRec r) (hp : perm.Perm (pcSkips 0 (linesPcs ls))) (hne : perm ≠ []) :
+    P.walk .properties (linesText ls).toArray = .done (lentries 0 ls) ∧
+    P.entitiesOf .properties (linesText ls).toArray (lentries 0 ls) = (lrecs ls).map P.expectedView ∧
+    P.junkOf (linesText ls).toArray (lentries 0 ls) = lgarb ls ∧
+    (∀ sk ∈ perm, ∃ e ∈ lentries 0 ls, sk.span = some (e.s, e.e) ∧ sk.junk = (e.kind == .junk)) ∧
+    ∃ t es', C04R.staged (linesText ls) (merge true cap_properties (linesText ls) perm (ms.map P.printRec)) = some t ∧
+      t = C04R.printToks (ltoks ls) ++ 10 :: P.printProps (ms ++ lrefs ls) ∧
+      P.walk .properties t.toArray = .done es' ∧
+      P.entitiesOf .properties t.toArray es' = (C04R.recsOf (ltoks ls) ++ (ms ++ lrefs ls)).map P.expectedView ∧
+      P.junkOf t.toArray es' = [] := by
+  obtain ⟨v1, v2⟩ := views_lentries (linesText ls).toArray ls 0 (by simp) hok
+  refine ⟨walk_lines ls hok, v1, v2, fun sk hsk => skips_are_entries ls 0 sk (hp.subset hsk), ?_⟩
+  have hrefs : ∀ r ∈ lrefs ls, P.SafeRec r := by
+    clear hp hne v1 v2
+    induction ls with
+    | nil => intro r hr; simp [lrefs] at hr
+    | cons l ls ih =>
+      intro r hr
+      cases l with
+      | rcd r0 bad =>
+        cases bad with
+        | none => exact ih hok.2.2 r (by simpa [lrefs] using hr)
+        | some rref =>
+          simp only [lrefs, List.mem_cons] at hr
+          rcases hr with e | e
+          · subst e; exact hok.2.1 _ rfl
+          · exact ih hok.2.2 r e
+      | garb g => exact ih hok.2.2 r (by simpa [lrefs] using hr)
+  have hkept : ∀ r ∈ C04R.recsOf (ltoks ls), P.SafeRec r := by
+    clear hp hne v1 v2 hrefs
+    induction ls with
+    | nil => intro r hr; simp [ltoks, C04R.recsOf] at hr
+    | cons l ls ih =>
+      intro r hr
+      cases l with
+      | rcd r0 bad =>
+        cases bad with
+        | none =>
+          simp only [ltoks, C04R.recsOf, List.mem_cons] at hr
+          rcases hr with e | e
+          · subst e; exact hok.1
+          · exact ih hok.2.2 r e
+        | some rref => exact ih hok.2.2 r (by simpa [ltoks, C04R.recsOf] using hr)
+      | garb g => exact ih hok.2.2 r (by simpa [ltoks, C04R.recsOf] using hr)
+  have htok : C04R.printToks (ltoks ls) ++ 10 :: P.printProps (ms ++ lrefs ls) =
+      C04R.printToks (ltoks ls ++ .nl :: (ms ++ lrefs ls).map .record) := by
+    rw [C04R.printToks_append, ← C04R.printToks_recs]; rfl
+  have hrec : C04R.recsOf (ltoks ls ++ .nl :: (ms ++ lrefs ls).map .record) = C04R.recsOf (ltoks ls) ++ (ms ++ lrefs ls) := by
+    rw [C04R.recsOf_append]
+    show _ ++ C04R.recsOf ((ms ++ lrefs ls).map .record) = _
+    rw [C04R.recsOf_recs]
+  obtain ⟨es', a1, a2, a3⟩ := C04R.reparse_toks _ _ _ htok hrec (by
+    intro r hr
+    rcases List.mem_append.mp hr with h | h
+    · exact hkept r h
+    · rcases List.mem_append.mp h with h | h
+      · exact hms r h
+      · exact hrefs r h)
+  exact ⟨_, es', merge_lines ls ms perm hp hne, rfl, a1, a2, a3⟩
+
+/-- (DTD: append and whole-entity cuts) The localization is a printed list of safe DTD entities `<!ENTITY k "v">⏎`, some
+    of them with an error-level check result (to be replaced by their reference entity).  Every skip is the span of an entity
+    the walk reports (the text `<!ENTITY k "v">` without its newline).  Whatever the order of the skips — and also with no
+    skip at all and only missing entities appended — the staged text is the kept entities (a blank line where one was
+    cut), a newline, the missing and the replaced reference entities; it parses to exactly these, no unparsed content. -/
+theorem multi_cut_reparses_dtd_partial (ls : List C04D.DLine) (ms : List C02X.DRec) (perm : List Skip)
+    (hls : ∀ l ∈ ls, C02X.SafeDtdRec l.1 ∧ ∀ rref, l.2 = some rref → C02X.SafeDtdRec rref)
+    (hms : ∀ r ∈ ms, C02X.SafeDtdRec r) (hp : perm.Perm (pcSkips 0 (C04D.dlinesPcs ls))) (hne : perm ≠ [] ∨ ms ≠ []) :
+    P.walk .dtd (C02X.printDtd (ls.map (·.1))).toArray = .done (C02X.dtdExpEntries 0 (ls.map (·.1))) ∧
+    (∀ sk ∈ perm, ∃ e ∈ C02X.dtdExpEntries 0 (ls.map (·.1)), e.kind = .entity ∧ sk.span = some (e.s, e.e) ∧ sk.junk = false) ∧
+    ∃ t es', C04R.staged (C02X.printDtd (ls.map (·.1)))
+        (merge true cap_dtd (C02X.printDtd (ls.map (·.1))) perm (ms.map C02X.printDtdRec)) = some t ∧
+      t = C04D.printToksD (C04D.dtoks ls) ++ 10 :: C02X.printDtd (ms ++ C04D.drefs ls) ∧
+      P.walk .dtd t.toArray = .done es' ∧
+      P.entitiesOf .dtd t.toArray es' = (C04R.recsOf (C04D.dtoks ls) ++ (ms ++ C04D.drefs ls)).map P.expectedView ∧
+      P.junkOf t.toArray es' = [] := by
+  refine ⟨C02X.walk_dtd_printed _ (by
+      intro r hr
+      obtain ⟨l, hl, rfl⟩ := List.mem_map.mp hr
+      exact (hls l hl).1),
+    fun sk hsk => C04D.dskips_are_entries ls 0 sk (hp.subset hsk), ?_⟩
+  have hrefs : ∀ r ∈ C04D.drefs ls, C02X.SafeDtdRec r := by
+    clear hp hne
+    induction ls with
+    | nil => intro r hr; simp [C04D.drefs] at hr
+    | cons l ls ih =>
+      intro r hr
+      obtain ⟨r0, bad⟩ := l
+      have ih' := ih (fun l hl => hls l (by simp [hl]))
+      cases bad with
+      | none => exact ih' r (by simpa [C04D.drefs] using hr)
+      | some rref =>
+        simp only [C04D.drefs, List.mem_cons] at hr
+        rcases hr with e | e
+        · subst e; exact (hls (r0, some r) (by simp)).2 _ rfl
+        · exact ih' r e
+  have hkept : ∀ r ∈ C04R.recsOf (C04D.dtoks ls), C02X.SafeDtdRec r := by
+    clear hp hne hrefs
+    induction ls with
+    | nil => intro r hr; simp [C04D.dtoks, C04R.recsOf] at hr
+    | cons l ls ih =>
+      intro r hr
+      obtain ⟨r0, bad⟩ := l
+      have ih' := ih (fun l hl => hls l (by simp [hl]))
+      cases bad with
+      | none =>
+        simp only [C04D.dtoks, C04R.recsOf, List.mem_cons] at hr
+        rcases hr with e | e
+        · subst e; exact (hls (r, none) (by simp)).1
+        · exact ih' r e
+      | some rref => exact ih' r (by simpa [C04D.dtoks, C04R.recsOf] using hr)
+  have htok : C04D.printToksD (C04D.dtoks ls) ++ 10 :: C02X.printDtd (ms ++ C04D.drefs ls) =
+      C04D.printToksD (C04D.dtoks ls ++ .nl :: (ms ++ C04D.drefs ls).map .record) := by
+    rw [C04D.printToksD_append, ← C04D.printToksD_recs]; rfl
+  have hrec : C04R.recsOf (C04D.dtoks ls ++ .nl :: (ms ++ C04D.drefs ls).map .record) =
+      C04R.recsOf (C04D.dtoks ls) ++ (ms ++ C04D.drefs ls) := by
+    rw [C04R.recsOf_append]
+    show _ ++ C04R.recsOf ((ms ++ C04D.drefs ls).map .record) = _
+    rw [C04R.recsOf_recs]
+  obtain ⟨es', a1, a2, a3⟩ := C04D.walk_toksD (C04D.dtoks ls ++ .nl :: (ms ++ C04D.drefs ls).map .record) (by
+    rw [hrec]
+    intro r hr
+    rcases List.mem_append.mp hr with h | h
+    · exact hkept r h
+    · rcases List.mem_append.mp h with h | h
+      · exact hms r h
+      · exact hrefs r h)
+  refine ⟨_, es', C04D.merge_dlines ls ms perm hp hne, rfl, ?_, ?_, ?_⟩
+  · rw [htok]; exact a1
+  · rw [htok, a2, hrec]
+  · rw [htok]; exact a3
+
+-- non-vacuity: a two-line file with one garbage line and one record to replace; the skips arrive in REVERSE file order
+example : LinesOK [.garb [103], .rcd ([97], [120]) (some ([97], [65]))] := by
+  refine ⟨⟨by simp, by simp, by simp⟩, trivial, ⟨by simp, by simp [P.propsKeyChar], by simp, by simp, by simp⟩, ?_, trivial⟩
+  intro rref h
+  cases h
+  exact ⟨by simp, by simp [P.propsKeyChar], by simp, by simp, by simp⟩
+example : pcSkips 0 (linesPcs [.garb [103], .rcd ([97], [120]) (some ([97], [65]))]) =
+    [{ span := some (0, 2), junk := true, refAll := [] }, { span := some (2, 5), junk := false, refAll := [97, 61, 65, 10] }] := by
+  decide
+example : merge true cap_properties [103, 10, 97, 61, 120, 10]
+    [{ span := some (2, 5), junk := false, refAll := [97, 61, 65, 10] }, { span := some (0, 2), junk := true, refAll := [] }] [] =
+    .written [10, 10, 97, 61, 65, 10] := by decide
+-- NEGATION WITNESS for `CutsNonempty` / distinct starts: an EMPTY cut that shares its start with a real one is sorted
+-- after it only if it was listed after it; listed first it makes the loop write the cut text (`contents[3:0]` is empty,
+-- then `offset` falls back to 0)
+example : merge true CAN_SKIP [97, 98, 99, 100]
+    [{ span := some (0, 3), junk := true, refAll := [] }, { span := some (0, 0), junk := true, refAll := [] }] [] =
+    .written [97, 98, 99, 100] := by decide
+
+/-- F17 (known finding) — the DTD analogue of F4: the localization `<!ENTITY b 'L` (a value opened with an apostrophe, never
+    closed, no final newline) and the missing reference entity `<!ENTITY a "A">⏎`: the staged text is the concatenation the
+    theorems above specify, but its walk has ONE entity (0‥29): the appended entity is swallowed by the open value. -/
+theorem f17_unstable_witness :
+    C04R.staged [60, 33, 69, 78, 84, 73, 84, 89, 32, 98, 32, 39, 76]
+      (merge true cap_dtd [60, 33, 69, 78, 84, 73, 84, 89, 32, 98, 32, 39, 76] []
+        [[60, 33, 69, 78, 84, 73, 84, 89, 32, 97, 32, 34, 65, 34, 62, 10]]) =
+      some [60, 33, 69, 78, 84, 73, 84, 89, 32, 98, 32, 39, 76, 10, 60, 33, 69, 78, 84, 73, 84, 89, 32, 97, 32, 34, 65, 34, 62, 10] ∧
+    P.walk .dtd #[60, 33, 69, 78, 84, 73, 84, 89, 32, 98, 32, 39, 76, 10, 60, 33, 69, 78, 84, 73, 84, 89, 32, 97, 32, 34, 65, 34, 62, 10] =
+      .done [{ kind := .entity, full := 0, s := 0, e := 29, ks := 9, ke := 10, vs := 12, ve := 27 },
+             { kind := .whitespace, full := 29, s := 29, e := 30, ks := 29, ke := 30, vs := 29, ve := 30 }] := by
+  refine ⟨by decide, by decide⟩
+
+end Multi
+
+/-! ### `.inc` (CAN_COPY): what is staged and that it re-parses -/
+section Inc
+open MergeB C04B
+
+/-- `.inc` files are never spliced: a clean localization is staged as its own bytes, one with ANY skip or missing entry as
+    the reference's bytes.  If the reference is the (CR-free) printed list of `#define` records `rs`, the staged file
+    decodes to that text and parses to exactly `rs` — complete, no junk — whatever the localization was. -/
+theorem inc_staging_reparses_partial (l10n ref : List Nat) (skips : List Skip) (ms : List (List Nat))
+    (rs : List C02X.IRec) (hrs : ∀ r ∈ rs, C02X.SafeIncRec r) (h13 : 13 ∉ C02X.printInc rs)
+    (href : encodeUtf8 (C02X.printInc rs) = some ref) (hdirty : skips ≠ [] ∨ ms ≠ []) :
+    mergeBytes true cap_inc l10n ref skips ms = .bytes ref ∧
+    readFile ref = C02X.printInc rs ∧
+    P.walk .inc (readFile ref).toArray = .done (C02X.incExpEntries 0 rs) ∧
+    P.entitiesOf .inc (readFile ref).toArray (C02X.incExpEntries 0 rs) = rs.map P.expectedView ∧
+    P.junkOf (readFile ref).toArray (C02X.incExpEntries 0 rs) = [] := by
+  have hr := readFile_encode _ _ h13 href
+  have hm : mergeBytes true cap_inc l10n ref skips ms = .bytes ref := by
+    rw [show cap_inc = CAN_COPY from rfl, copy_only_bytes]
+    have : (skips.isEmpty && ms.isEmpty) = false := by
+      rcases hdirty with h | h
+      · cases skips <;> simp_all
+      · cases ms <;> simp_all
+    simp [this]
+  obtain ⟨v1, v2⟩ := C02X.entitiesOf_incExpEntries (C02X.printInc rs).toArray rs 0 (by simp)
+  rw [hr]
+  exact ⟨hm, rfl, C02X.walk_inc_printed rs hrs, v1, v2⟩
+
+end Inc
+
+/-! ### Android (finding F5): exactly what is staged -/
+section Android
+open C04M
+
+/-- ANDROID, complete characterisation.  `AndroidParser` is CAN_SKIP; its entities have span `(None, None)`, its junk (an
+    unparseable document or element) span `(0, 0)`.  So, for a localized `strings.xml` with decoded text `contents`:
+    (a) nothing to skip → byte copy of the l10n file (missing strings are NOT added: no English enters);
+    (b) only junk skips, any number → the WHOLE text is written back (nothing removed: the junk stays);
+    (c) exactly one skip, an entity → the text is written TWICE (`contents[0:None] + contents[None:]`), nothing removed;
+    (d) two or more skips, at least one of them an entity → `skips.sort` compares `None` and raises TypeError. -/
+theorem android_merge_spec (contents : List Nat) (ms : List (List Nat)) :
+    merge true cap_android contents [] ms = .copyL10n ∧
+    (∀ sk rest, (∀ s ∈ sk :: rest, s.span = some (0, 0)) → merge true cap_android contents (sk :: rest) ms = .written contents) ∧
+    (∀ sk, sk.span = none → merge true cap_android contents [sk] ms = .written (contents ++ contents)) ∧
+    (∀ s1 s2 rest, (∃ s ∈ s1 :: s2 :: rest, s.span = none) → merge true cap_android contents (s1 :: s2 :: rest) ms = .typeError) := by
+  refine ⟨by simp [merge, hasCap, cap_android, CAN_SKIP, CAN_MERGE, CAN_COPY, CAN_NONE], ?_, ?_, ?_⟩
+  · intro sk rest hall
+    -- the stable sort returns some permutation, all of whose spans are (0, 0)
+    have hsome : (sk :: rest).all (fun s => s.span.isSome) = true := by
+      rw [List.all_eq_true]; intro s hs; rw [hall s hs]; rfl
+    obtain ⟨sorted, hsorted, hperm⟩ : ∃ sorted, sortSkips (sk :: rest) = some sorted ∧ sorted.Perm (sk :: rest) := by
+      cases rest with
+      | nil => exact ⟨[sk], rfl, List.Perm.refl _⟩
+      | cons s2 r =>
+        obtain ⟨_, _, b3⟩ := foldl_insert (sk :: s2 :: r) [] (by simp) (by simp)
+        simp only [List.map_nil, List.append_nil] at b3
+        exact ⟨_, by unfold sortSkips; simp only [hsome, if_true]; rfl, b3⟩
+    rw [show cap_android = CAN_SKIP from rfl, skip_only_text contents sk rest ms sorted hsorted, chunks_none_eq,
+      chunks_zero_spans contents sorted (fun s hs => hall s (hperm.subset hs))]
+  · intro sk hsk
+    simp [merge, hasCap, cap_android, CAN_SKIP, CAN_MERGE, CAN_COPY, CAN_NONE, sortSkips, chunks, hsk]
+  · intro s1 s2 rest ⟨s, hs, hnone⟩
+    have hall : (s1 :: s2 :: rest).all (fun s => s.span.isSome) = false := by
+      rw [List.all_eq_false]
+      exact ⟨s, hs, by simp [hnone]⟩
+    simp [merge, hasCap, cap_android, CAN_SKIP, CAN_COPY, CAN_NONE, sortSkips, hall]
+
+/-- … on bytes: case (b) re-encodes the decoded text (CRLF and ill-formed bytes are NOT preserved although nothing is
+    removed), case (c) doubles it -/
+theorem android_bytes_spec (l10n ref : List Nat) (ms : List (List Nat)) (sk : Skip) :
+    (sk.span = some (0, 0) → MergeB.mergeBytes true cap_android l10n ref [sk] ms = MergeB.encodeOut [] (MergeB.readFile l10n)) ∧
+    (sk.span = none → MergeB.mergeBytes true cap_android l10n ref [sk] ms =
+      MergeB.encodeOut [] (MergeB.readFile l10n ++ MergeB.readFile l10n)) := by
+  constructor
+  · intro h
+    rw [MergeB.mergeBytes, (android_merge_spec _ ms).2.1 sk [] (by intro s hs; simp at hs; subst hs; exact h)]
+  · intro h
+    rw [MergeB.mergeBytes, (android_merge_spec _ ms).2.2.1 sk h]
+
+end Android
 
 end C04
